@@ -86,7 +86,7 @@ func c17Dial(trans string, prep func(*testClient), opts ...client.DialOption) (*
 	if prep != nil {
 		prep(s.tc)
 	}
-	f := &fsession{s, 0}
+	f := &fsession{s, 0, -1}
 	a := &autoPeer{f: f}
 	errc := make(chan error, 1)
 	var url string
